@@ -76,9 +76,9 @@ class Node(basenode.BaseNode):
     def __init__(self, name: str = "", sep: str = "/", **kwargs: Any):
         self.name = name
         self._sep = sep
-        super().__init__(**kwargs)
         if not self.node_name:
             raise exceptions.TreeError("Node must have a `name` attribute")
+        super().__init__(**kwargs)
 
     @property
     def sep(self) -> str:
